@@ -81,7 +81,7 @@ Step(cur, seg) ==
   ELSE IF cur.unk THEN cur
   ELSE LET c == cur.v IN
     IF c.k = "arr" /\ seg.idx >= 0
-    THEN IF seg.idx < Len(c.es) THEN Pos(TRUE, c.es[seg.idx + 1], FALSE, FALSE) ELSE Pos(TRUE, VUndef, TRUE, FALSE)
+    THEN IF seg.idx < Len(c.es) THEN Pos(TRUE, Deh(c.es[seg.idx + 1]), FALSE, FALSE) ELSE Pos(TRUE, VUndef, TRUE, FALSE)
     ELSE IF c.k = "map" /\ seg.fn \in {"key", "value"}
     THEN IF seg.argok /\ \E j \in DOMAIN c.es : c.es[j].mk = seg.arg
          THEN LET j == CHOOSE j \in DOMAIN c.es : c.es[j].mk = seg.arg IN
